@@ -226,6 +226,11 @@ func (p *Prompt) MultilineColumnPrint() {
 		}
 
 		fmt.Print(column)
+
+	default:
+		// No column to print, but the caller has moved to the first
+		// line of the buffer and expects us to end on the last one.
+		fmt.Print(strings.Repeat("\n", p.line.Lines()))
 	}
 }
 
